@@ -55,6 +55,8 @@ def extract(repo):
     out += coq_def_N("sel_ms_per_sec", int(m.group(1)))
     out += coq_def_N("sel_round_add", int(m.group(2)))
     out += coq_def_N("sel_us_per_ms", int(m.group(3)))
+    # growpollfd's argument check (EventsModel.growpollfd answers AssertFail for fd >= INT_MAX)
+    _one(r"assert\s*\(\s*fd\s*<\s*INT_MAX\s*\)\s*;", net, "growpollfd: assert(fd < INT_MAX)")
     _one(r"if\s*\(\s*tv\s*==\s*NULL\s*\)\s*timeout\s*=\s*-1\s*;", net, "infinite timeout")
     _one(r"fdscanpos\s*=\s*nfds\s*-\s*1\s*;", net, "scan start")
     _one(r"for\s*\(\s*;\s*fdscanpos\s*<\s*nfds\s*;\s*fdscanpos--\s*\)", net, "scan loop")
